@@ -168,6 +168,54 @@ def main(argv):
     return finish(pid, prop, tier, seed, repo, results, canaries, time.time() - t0)
 
 
+def auto_bounds(prop, cfgs):
+    """the bounds actually run: distinct values of every configuration key, and the windows of the symbolic inputs"""
+    import re as _re
+    space = {}
+    for c in cfgs:
+        for k, v in c.items():
+            space.setdefault(k, set()).add(json.dumps(v, sort_keys=True))
+    cs = {}
+    for k, vs in sorted(space.items()):
+        vals = sorted(vs)
+        dec = [json.loads(v) for v in vals]
+        if len(vals) <= 24:
+            cs[k] = dec
+        elif all(isinstance(d, list) and len(d) == 3 and isinstance(d[0], bool) for d in dec):
+            cs[k] = dict(distinct_formats=len(dec), signed=sorted(set(d[0] for d in dec)), n_word=[min(d[1] for d in dec), max(d[1] for d in dec)],
+                         n_frac=[min(d[2] for d in dec), max(d[2] for d in dec)], n_word_values=sorted(set(d[1] for d in dec))[:40])
+        elif all(isinstance(d, int) and not isinstance(d, bool) for d in dec):
+            cs[k] = dict(distinct=len(dec), min=min(dec), max=max(dec))
+        else:
+            cs[k] = dict(distinct=len(vals), examples=dec[:6])
+    win = {}
+    for c in cfgs:
+        try:
+            sp = prop.inputs(c)
+        except Exception:
+            continue
+        for name, d in sp.items():
+            key = _re.sub(r'\d+$', '', name) + ':' + d['kind']
+            w = win.setdefault(key, dict(kind=d['kind'], configs=0))
+            w['configs'] += 1
+            if d['kind'] in ('int', 'float'):
+                w['min_lo'] = min(w.get('min_lo', d['lo']), d['lo'])
+                w['max_hi'] = max(w.get('max_hi', d['hi']), d['hi'])
+                if d['kind'] == 'float':
+                    w['min_exp'] = min(w.get('min_exp', d['exp']), d['exp'])
+                    w['max_exp'] = max(w.get('max_exp', d['exp']), d['exp'])
+            elif d['kind'] == 'str':
+                w['max_len'] = max(w.get('max_len', 0), d['len'])
+    for w in win.values():
+        for k in ('min_lo', 'max_hi'):
+            if k in w and abs(w[k]) >= 1 << 64:
+                w[k] = ('-' if w[k] < 0 else '') + '2^%d-ish (%d bits)' % (abs(w[k]).bit_length(), abs(w[k]).bit_length())
+    return dict(configuration_space=cs, symbolic_input_windows=win,
+                meaning='every value inside the listed windows is covered by the solver for every listed configuration that was run; '
+                        'configurations, formats, shapes and magnitudes not listed are outside the claim of this run',
+                note=getattr(prop, 'BOUNDS_NOTE', 'see assumptions'))
+
+
 def finish(pid, prop, tier, seed, repo, results, canaries, wall):
     from sx import loader, crosscheck
     main_r = [r for r in results if r.get('canary') is None]
@@ -231,7 +279,7 @@ def finish(pid, prop, tier, seed, repo, results, canaries, wall):
             solver_queries=tot('solver_queries'), solver_seconds=round(sum(r.get('solver_s', 0) for r in main_r), 2),
             witness_validation_skipped=tot('validation_skipped'),
             functions_encoded=dict(declared=getattr(prop, 'ENCODED', []), executed_symbolically=covered, file_sha256=loader.file_hashes(repo)),
-            bounds=getattr(prop, 'bounds', lambda t: getattr(prop, 'BOUNDS', {}).get(t, ''))(tier),
+            bounds=auto_bounds(prop, [r['cfg'] for r in main_r]),
             crosscheck=cross, canary=can_report, known_findings_hit=sorted(known), exhaustive=False,
             explanation='bounded symbolic model checking of the lifted fxpmath source (engine SX, QF_BV verdict queries); see DESIGN.md'),
         assumptions=getattr(prop, 'ASSUMPTIONS', []),
